@@ -205,10 +205,20 @@ var idents = []string{"a", "b", "c", "A", "col_1", "x9", "Zz_0", "count", "a_", 
 var hostile = []string{"", "x", "\"", "\"\"", "\"a", "a\"", "\"a\"", "a\"\"b", "\n", "a\nb", "\r\n", "é", "日本", "💩", "\xff", "a\xffb", "\x00", " ", "  ", "\t",
 	"$1", ";", "( )", "&", "|", "^", "=", ",", "a = \"b\"", "\\", "\\\"", "'", strings.Repeat("\"", 7), strings.Repeat("q", 200)}
 
+// hugeBudget > 0 makes the next leaf drawn carry a very long value (set per
+// case by drawCase, about one case in 300).
+var hugeBudget int
+
 func genTree(t *rapid.T, depth, maxArity int) T {
 	k := rapid.IntRange(0, 9).Draw(t, "node")
 	if depth <= 0 || k < 3 {
 		leaf := T{Op: 0, Col: rapid.SampledFrom(idents).Draw(t, "col")}
+		if hugeBudget > 0 {
+			// very long values: buffers and pools sized for ordinary queries
+			hugeBudget--
+			leaf.Val = strings.Repeat(rapid.SampledFrom([]string{"x", "\"", "é", "a b "}).Draw(t, "hugeunit"), rapid.SampledFrom([]int{5000, 40000, 70000, 140000}).Draw(t, "hugelen"))
+			return leaf
+		}
 		switch rapid.IntRange(0, 5).Draw(t, "leafkind") {
 		case 0:
 			leaf.PH = int32(rapid.SampledFrom([]int{1, 2, 3, 7, 100, 2147483647}).Draw(t, "ph"))
@@ -237,6 +247,10 @@ func genTree(t *rapid.T, depth, maxArity int) T {
 }
 
 func drawCase(t *rapid.T) *Case {
+	hugeBudget = 0
+	if rapid.IntRange(0, 300).Draw(t, "hugecase") == 0 {
+		hugeBudget = 1
+	}
 	c := &Case{Tree: genTree(t, rapid.IntRange(0, 8).Draw(t, "depth"), rapid.IntRange(1, 6).Draw(t, "maxarity"))}
 	n := rapid.IntRange(0, 8).Draw(t, "ngb")
 	if rapid.Bool().Draw(t, "nogb") {
